@@ -21,6 +21,8 @@ def parseSpec (s : String) : FSpec :=
   | ["bref", f, t] => .bref (f.toNat?.getD 0) (nameIdx t)
   | ["nest", v] => .nest (nameIdx v)
   | ["fwd", g] => .fwd (nameIdx g)
+  | ["ownT", f, t] => .ownT (f.toNat?.getD 0) (nameIdx t)
+  | ["ownK", f, k] => .ownK (f.toNat?.getD 0) (nameIdx k)
   | _ => .bad
 
 def parseStrat (s : String) : Strat :=
